@@ -75,6 +75,7 @@ def run_case(case, ctx):
 				evals += 1
 				continue
 			env = None
+			run_cwd = None
 			args = ['-d', W.dir, 'query', '-o', out, '-f', plan['fmt']]
 			if plan.get('db_via_env'):
 				args, env = args[2:], {'GAMBIT_DB_PATH': W.dir}
@@ -113,7 +114,11 @@ def run_case(case, ctx):
 				else:
 					lf = os.path.join(pd, 'list.txt')
 					H.write_listfile(lf, rel, plan.get('list_style', 0))
-					args += ['-l', lf, '--ldir', os.path.join(pd, 'base') + ('/' if plan.get('list_style', 0) % 2 else '')]
+					lcwd = plan.get('list_cwd') if not plan.get('symlinks') else None
+					run_cwd, give = H.list_cwd_setup(lcwd, pd, os.path.join(pd, 'base'), rel, [W.query_contigs[q] for q in order])
+					args += ['-l', lf] + (['--ldir', os.path.join(pd, 'base') + ('/' if plan.get('list_style', 0) % 2 else '')] if give else [])
+					if lcwd:
+						classes.add('list_cwd=' + lcwd)
 				if any(gzs):
 					classes.add('gzip_input')
 			if plan['cores'] is not None:
@@ -134,12 +139,12 @@ def run_case(case, ctx):
 				classes.add('output_path_preexists')
 			if out_mode == 'stdout':
 				i = args.index('-o')
-				res = run_cli_subprocess(args[:i] + args[i + 2:], env_extra=env)
+				res = run_cli_subprocess(args[:i] + args[i + 2:], env_extra=env, cwd=run_cwd)
 				with open(out, 'wb') as f:
 					f.write(res.stdout_bytes)
 				classes.add('output_to_stdout_of_subprocess')
 			else:
-				res = run_cli(args, env=env)
+				res = run_cli(args, env=env, cwd=run_cwd)
 			if res.exit_code != 0:
 				raise Violation('command_failed', f'{where}: exit {res.exit_code}: {res.stderr[-300:]} {res.exception!r}', case)
 			evals += 1
@@ -223,6 +228,7 @@ def gen_case(draw, tier):
 			'db_via_env': draw(st.sampled_from([False, False, True])),
 			'chunksize': draw(st.sampled_from([1000, None, 1, 2, 'n+1'])),
 			'out_mode': draw(st.sampled_from(['file', 'file', 'stale', 'file', 'stdout', 'file'])),
+			'list_cwd': draw(st.sampled_from([None, 'decoy', None, 'implicit'])),
 		})
 	return {'kind': 'plans', 'world': w, 'plans': plans}
 
